@@ -23,6 +23,9 @@ Statements are abstracted to what decides the control flow of the two loops:
                not prepare (`prep = false`: missing table or column) or has too few parameters
                (`prep = true`; `ro` = SQLite classifies it read-only). queryStmtWithConn returns the
                rows carrying the error AND the error, so the loops treat it as any other failure.
+  autoRollback a write that fails AND makes SQLite roll the open transaction back by itself:
+               `INSERT OR ROLLBACK` hitting a constraint, `RAISE(ROLLBACK, …)` in a trigger. Outside a
+               transaction it is an ordinary failing statement.
   begin / commit / rollback   explicit transaction control
 
 The SQLite side (`sqlRun`) is the assumed semantics of one connection in WAL
@@ -51,6 +54,7 @@ inductive Stmt where
   | queryFail
   | partialFail (d : Nat)
   | startFail (prep ro : Bool)
+  | autoRollback
   | begin
   | commit
   | rollback
@@ -81,6 +85,7 @@ def sqlRun (db : Db) : Stmt → Option Db
   | .queryFail => none
   | .partialFail _ => none
   | .startFail _ _ => none
+  | .autoRollback => none
   | .begin =>
     match db.open_ with
     | some _ => none
@@ -97,6 +102,7 @@ def sqlRun (db : Db) : Stmt → Option Db
 /-- what a FAILING statement leaves behind on the connection (nothing, except `partialFail`) -/
 def failEffect (db : Db) : Stmt → Db
   | .partialFail d => db.write d
+  | .autoRollback => { db with open_ := none }   -- SQLite has rolled the transaction back itself
   | _ => db
 
 /-- `sqlite3_prepare` succeeds -/
@@ -251,7 +257,7 @@ def request (db : Db) (r : Req) : Out :=
    `<res;res;…|-> <committed> <open|-> <err 0|1>`
 statement tokens: `w<δ>` ok, `r<δ>` returning, `R<δ>` returning+ForceQuery, `xf` execFail,
 `pf` prepFail, `e` empty, `q` query, `Q` query+ForceQuery, `qf` queryFail, `p<δ>` partialFail,
-`sp` startFail (does not prepare), `sa` startFail (write, too few parameters), `sq` startFail (read-only, too few parameters), `b`, `c`, `rb`.
+`ar` autoRollback, `sp` startFail (does not prepare), `sa` startFail (write, too few parameters), `sq` startFail (read-only, too few parameters), `b`, `c`, `rb`.
 result tokens: `E<rowid>`, `E*`, `Q<ids .-separated>`, `err`. Lists of ids are `.`-separated, `-` when empty. -/
 
 structure DState where
@@ -265,6 +271,7 @@ def parseStmt (t : String) : Option Stmt :=
   | ['q'] => some (.query false)
   | ['Q'] => some (.query true)
   | ['q', 'f'] => some .queryFail
+  | ['a', 'r'] => some .autoRollback
   | ['s', 'p'] => some (.startFail false false)
   | ['s', 'a'] => some (.startFail true false)
   | ['s', 'q'] => some (.startFail true true)
